@@ -4,7 +4,7 @@ import struct
 from hypothesis import strategies as st
 
 from harness import build, gen, simnet, wire, utf8ref, httpref, deflateref
-from harness.runner import Prop, Enumeration, held, failed, after_every_prelude, with_noise, with_companion
+from harness.runner import Prop, Enumeration, held, failed, after_every_prelude, with_noise, with_companion, with_debug_log
 from props.c01 import effective_seg
 from props.c04 import deflate_reply
 
@@ -233,7 +233,7 @@ class C05(Prop):
                                    "carriage": carriage, "seg": "whole", "before": []}
         return [Enumeration("validator_automaton", groups, exhaustive=True), after_every_prelude(battery),
                 Enumeration("frame_length_classes", length_classes, exhaustive=True),
-                with_noise(battery), with_companion(battery),
+                with_noise(battery), with_companion(battery), with_debug_log(battery),
                 Enumeration("special_code_points_exact_decoding", special_code_points, exhaustive=True)]
 
     # -- hypothesis ----------------------------------------------------------------
@@ -260,6 +260,8 @@ class C05(Prop):
             "companion": gen.companion(),
             # calls with unsendable arguments that the application tries (and whose error it catches) on the way
             "noise_calls": gen.noise_calls(),
+            # the application has switched on DEBUG logging for the library
+            "debug_log": gen.debug_log(),
             # connect() options that must not matter here
             "copts_noise": gen.copts_noise(),
             "before": st.lists(st.sampled_from(["text", "binary", "fragtext"]), max_size=2),
